@@ -242,6 +242,10 @@ def rule_null_space(repo: Repo, rep: Report) -> int:
                 if isinstance(col, ast.Slice) and (col.upper is not None or col.lower is not None) and "reduced" in unparse(st_.value):
                     rep.violation("VERIFIED-RETURN", fi, st_, f"the pivot entries of the null-space basis are written to the column range `{unparse(col)}` instead of to the pivot columns themselves: this is only right when the pivots are the first `rank` columns; for a generator whose leading k x k block is singular (Reed-Muller, permuted information sets) G.H^T != 0", node=st_)
                     n += 1
+        for st_ in ast.walk(fi.node):
+            if isinstance(st_, ast.Assign) and isinstance(st_.targets[0], ast.Subscript) and unparse(st_.targets[0].value) == "null_space" and isinstance(st_.targets[0].slice, ast.Tuple) and len(st_.targets[0].slice.elts) == 2 and unparse(st_.targets[0].slice.elts[1]) == "pivot_row":
+                rep.violation("VERIFIED-RETURN", fi, st_, "the basis vector gets its 1 at column `pivot_row` (the ROW of the reduced matrix) instead of at the pivot's column: right only when the pivots are columns 0..k-1; otherwise G.H^T != 0", node=st_)
+                n += 1
         for t in needed:
             rep.expect(t in body, "VERIFIED-RETURN", fi, f"null-space basis step `{t}`", "one basis vector per free column: 1 at the free column and at the pivots whose row has a 1 there", "the null-space basis is not built from the reduced row echelon form")
             n += 1
